@@ -36,6 +36,8 @@ CONSTRUCTS = {
     "in-operator": 'print! 1 in [1, 2]\nprint! 3 in [1, 2]\n',
     "unary": 'x = 3\nprint! -x\nprint! +x\n',
     "float-arith": 'print! 1.5 + 2, 7 / 2, 7 // 2, 7 % 2\n',
+    "with-exception": 'unsound = import "unsound"\nC = Class()\nC|<: ContextManager|.\n    __enter__ self =\n        unsound.perform do!:\n            print! "enter"\n        self\n    __exit__ self, _, _, _ =\n        unsound.perform do!:\n            print! "exit"\n        False\nwith! C.new(), c =>\n    print! "body", c != None\n    print! int("zz")\nprint! "after"\n',
+    "with-user-cm": 'unsound = import "unsound"\nC = Class()\nC|<: ContextManager|.\n    __enter__ self =\n        unsound.perform do!:\n            print! "enter"\n        self\n    __exit__ self, _, _, _ =\n        unsound.perform do!:\n            print! "exit"\n        False\nwith! C.new(), c =>\n    print! "body", c != None\nprint! "after"\n',
     "with-open": 'with! open!("__TMPFILE__", mode := "w"), f =>\n    discard f.write! "hello"\nprint! "written"\n',
 }
 
